@@ -78,7 +78,7 @@ func pqImpl(line string) string {
 			}
 			m, err := q.Read(p)
 			if err != nil {
-				return fmt.Sprintf("short:%d:%s", m, hx(p)), false
+				return fmt.Sprintf("short:%d", m), false
 			}
 			return fmt.Sprintf("ok:%d:%s", m, hx(p)), false
 		case f[0] == "u" && len(f) == 2:
